@@ -286,14 +286,18 @@ class SwapDisjToFrontMacro(Macro):
 
     def get_proof_term(self, args, prevs) -> ProofTerm:
         prev = prevs[0]
-        _, idx = args
-        disjs = strip_disj_n(prev.prop, idx)
+        l_args, idx = args
+        disjs = strip_disj_n(prev.prop, idx + 1)
         eq_pt = ProofTerm.reflexive(disjs[-1])
 
         # Add one disjunct at one time.
-        for t in reversed(disjs[:-1]):
+        for i, t in enumerate(reversed(disjs[:-1])):
             eq_pt = ProofTerm.reflexive(disj(t)).combination(eq_pt)
-            eq_pt.on_rhs(rewr_conv('disj_swap_eq'))
+            if i == 0 and idx == len(l_args) - 1:
+                # the disjunct to be moved is the last one: nothing follows it
+                eq_pt = eq_pt.on_rhs(rewr_conv('disj_comm'))
+            else:
+                eq_pt = eq_pt.on_rhs(rewr_conv('disj_swap_eq'))
         return eq_pt.equal_elim(prev)
 
 
